@@ -18,6 +18,7 @@ type Case struct {
 	File    vkit.AmmoFile `json:"file"`
 	Passes  int           `json:"passes"`
 	Preload bool          `json:"preload"`
+	Limit   int           `json:"limit,omitempty"` // > 0: the provider stops after that many entries
 	Conf    []vkit.KV     `json:"conf_headers,omitempty"`
 	Text    string        `json:"text,omitempty"`
 }
@@ -57,6 +58,9 @@ func runCase(res *vkit.Result, c Case) {
 	if c.Preload {
 		conf["preload"] = true
 	}
+	if c.Limit > 0 {
+		conf["limit"] = c.Limit
+	}
 	if len(c.Conf) > 0 {
 		conf["headers"] = vkit.ConfHeaders(c.Conf)
 	}
@@ -67,6 +71,9 @@ func runCase(res *vkit.Result, c Case) {
 	}
 	pass := c.File.ExpectedPass(c.Conf)
 	want := len(pass) * c.Passes
+	if c.Limit > 0 && c.Limit < want {
+		want = c.Limit
+	}
 	dr := vkit.Drain(p, 1, want+len(pass)+3, 10*time.Second)
 	if dr.Hang != "" {
 		res.Inconclusive(false, "provider hang (C08's subject): %s", dr.Hang)
@@ -92,14 +99,14 @@ func runCase(res *vkit.Result, c Case) {
 	// count: drops, duplicates, merges (ending semantics proper are C08's subject, but a
 	// dropped last entry shows as a short pass here)
 	if n != want && !dr.Cancelled {
-		fail("count", "%d entries × %d passes: %d ammo delivered, want %d (run error: %v)", len(pass), c.Passes, n, want, dr.RunErr)
+		fail("count", "%d entries × %d passes, limit %d: %d ammo delivered, want %d (run error: %v)", len(pass), c.Passes, c.Limit, n, want, dr.RunErr)
 	} else if n > want {
 		fail("count", "%d entries × %d passes: more than %d ammo delivered", len(pass), c.Passes, want)
 	}
 	res.Count("files_"+c.File.Format+"/"+layoutKey(c.File.Layout), 1)
 	res.Count("entries_compared", int64(min(n, want)))
 	res.Count("passes_total", int64(c.Passes))
-	res.Eval(c.Text+fmt.Sprint(c.Passes, c.Preload), len(pass) >= 2 || c.Passes >= 2)
+	res.Eval(c.Text+fmt.Sprint(c.Passes, c.Preload, c.Limit), len(pass) >= 2 || c.Passes >= 2)
 	if c.File.Layout.Seed%400 == 0 {
 		res.Sample(map[string]any{"format": c.File.Format, "layout": c.File.Layout, "passes": c.Passes, "preload": c.Preload, "file_text": c.Text, "delivered": n})
 	}
@@ -136,6 +143,10 @@ func main() {
 			if rng.Intn(2) == 0 {
 				c.Conf = append(c.Conf, vkit.KV{K: "x-conf-second", V: "two words"})
 			}
+		}
+		if rng.Intn(3) == 0 {
+			// a limit somewhere between one entry and a little beyond everything the passes give
+			c.Limit = 1 + rng.Intn(len(c.File.Entries())*c.Passes+2)
 		}
 		cases = append(cases, c)
 	}
